@@ -310,9 +310,21 @@ def absence_rule(F, rep):
                 arms[nm] = body
     ok = "Some(map)" in arms.get("Object", "").replace("std::prelude::v1::", "") and "Ok(" in arms.get("Object", "").replace("std::prelude::v1::", "") and "None" in arms.get("Null", "") and "Ok(" in arms.get("Null", "").replace("std::prelude::v1::", "")
     rep.ob("absence.slpp", ok, "io::peppi::de::read_peppi_metadata", "null", "the .slpp reader must map JSON null to no metadata and an object to Some(map); arms: %s" % sorted(arms))
+    # writer side: the Option itself is serialised, so absence is stored as JSON null (not as an empty object)
+    ents = {e["name"]: e for e in peppifmt.writer_entries(F)}
+    src = peppifmt.payload_source(F, ents["metadata.json"]) if "metadata.json" in ents else None
+    rep.ob("absence.slpp-writer", src == ("json", "game.metadata") and not ents["metadata.json"]["guards"], peppifmt.WRITE, "metadata.json",
+           "metadata.json must be serde_json::to_vec(&game.metadata) — the Option itself, unconditionally — so that a game without metadata is stored as null; got %s" % (src,))
     arms2, m, loop = peppifmt.reader_arms(F)
     a = arms2.get("metadata.json")
-    ok = a is not None and tir.pretty(L.strip_try(a["body"])) == "metadata = io::peppi::de::read_peppi_metadata(file)?"
+    ok = False
+    if a is not None:
+        st = L.strip_try(a["body"])
+        while st.get("k") == "Block" and not st.get("tail") and len(st.get("stmts", [])) == 1:
+            st = L.strip_try(st["stmts"][0].get("e") or {})
+        if st.get("k") == "Assign":
+            r = L.strip_try(st["r"])
+            ok = r.get("k") == "Call" and (declared(r) or "") == "io::peppi::de::read_peppi_metadata" and strip(st["l"]).get("k") == "Path"
     rep.ob("absence.slot", ok, peppifmt.READ, "metadata.json", "the metadata slot must take read_peppi_metadata's Option unchanged")
 
 
